@@ -118,7 +118,7 @@ def _history(runs):
         env = dict(os.environ, PYVC_REPO=os.environ.get("PYVC_REPO", "/repo"))
         try:
             p = subprocess.run([PY, os.path.join(VERIF, "replay", "history_fuzz.py"), "20260928", str(runs)], capture_output=True, text=True,
-                               timeout=240 if runs <= 1000 else 1500, cwd=VERIF, env=env)
+                               timeout=90 if runs <= 1000 else 1500, cwd=VERIF, env=env)
             lines = [l for l in p.stdout.strip().splitlines() if l.startswith("{")]
             res = json.loads(lines[-1]) if p.returncode == 0 and lines else {}
             tail = p.stdout[-300:] + p.stderr[-300:]
